@@ -146,6 +146,9 @@ impl Check for C10 {
             }
         }
         for _ in 0..1 + r.usize_below(3) {
+            if c * rw > 20_000 {
+                break; // gigantic screens keep their geometry (see sim::gen_session)
+            }
             let (c2, r2) = gen_resize(r, c, rw, mc, mr);
             evs.push(Event::Resize { cols: c2, rows: r2, drain: crate::trace::Drain::All });
             c = c2;
